@@ -44,8 +44,10 @@ GEN = {"fixed": fixed_table, "findings": findings_table, "seeds": seeds_table, "
 p = os.path.join(ROOT, "DESIGN.md")
 s = open(p).read()
 for name, fn in GEN.items():
-    pat = re.compile(r"(<!-- gen:%s -->\n).*?(\n<!-- /gen:%s -->)" % (name, name), re.S)
+    pat = re.compile(r"(<!-- gen:%s -->\n)(?:.*?\n)??(<!-- /gen:%s -->)" % (name, name), re.S)
     if pat.search(s):
-        s = pat.sub(lambda m: m.group(1) + fn() + m.group(2), s)
+        s = pat.sub(lambda m: m.group(1) + fn() + "\n" + m.group(2), s)
+    else:
+        print("WARNING: markers for", name, "not found")
 open(p, "w").write(s)
 print("DESIGN.md tables regenerated")
